@@ -1,0 +1,47 @@
+// Copyright 2020-2025 Buf Technologies, Inc.
+//
+// Licensed under the Apache License, Version 2.0 (the "License");
+// you may not use this file except in compliance with the License.
+// You may obtain a copy of the License at
+//
+//      http://www.apache.org/licenses/LICENSE-2.0
+//
+// Unless required by applicable law or agreed to in writing, software
+// distributed under the License is distributed on an "AS IS" BASIS,
+// WITHOUT WARRANTIES OR CONDITIONS OF ANY KIND, either express or implied.
+// See the License for the specific language governing permissions and
+// limitations under the License.
+
+//go:build verif
+
+package app
+
+// Contracts for the gocv verifier (see /verif/DESIGN.md). Comment-only.
+//
+// C20: an error always yields a non-zero exit status; status 0 exactly for a nil error.
+//
+//@ func newAppError(exitCode, err) (r)
+//@   property C20
+//@   modifies heap
+//@   ensures nonzero: r != nil && r.exitCode != 0 && r.err != nil
+//@   ensures code-kept: exitCode != 0 ==> r.exitCode == exitCode
+//
+//@ func NewError(exitCode, message) (r)
+//@   property C20
+//@   modifies heap
+//@   ensures r != nil && typeOf(r) == typeId(*appError) && cast(*appError, r).exitCode != 0
+//@   ensures code-kept: exitCode != 0 ==> cast(*appError, r).exitCode == exitCode
+//
+//@ func WrapError(exitCode, err) (r)
+//@   property C20
+//@   modifies heap
+//@   ensures r != nil && typeOf(r) == typeId(*appError) && cast(*appError, r).exitCode != 0
+//@   ensures code-kept: exitCode != 0 ==> cast(*appError, r).exitCode == exitCode
+//
+// Every appError reachable through the chain of err was built by newAppError (exit code != 0):
+// object invariant of appError, assumed here and established by newAppError#post[nonzero].
+//@ func GetExitCode(err) (r)
+//@   property C20
+//@   requires forall e ref :: inChain(err, e) ==> allocated(e) && cast(*appError, e).exitCode != 0
+//@   ensures zero-iff-nil: (r == 0) <==> (err == nil)
+//@   canary ensures r == 1
